@@ -189,6 +189,25 @@ struct POp {
   int64_t value;
 };
 
+// The ways a client can end up holding an iterator (C11 covers the handle as well as the traversal): copy elision, move assignment onto
+// a default-constructed / reset iterator, move construction from a named iterator. The bucket lock must travel with the handle.
+template <class It, class F>
+It obtain_iterator(int form, F&& get) {
+  switch (form % 3) {
+  case 0: return get();
+  case 1: {
+    It it;
+    it = get(); // move assignment onto an empty iterator
+    return it;
+  }
+  default: {
+    It first = get();
+    It it(std::move(first)); // move construction; `first` is destroyed as a moved-from iterator
+    return it;
+  }
+  }
+}
+
 template <class M>
 void exec_op(typename M::Map& map, const POp& p, OpRec& o) {
   using Map = typename M::Map;
@@ -232,7 +251,8 @@ void exec_op(typename M::Map& map, const POp& p, OpRec& o) {
     break;
   }
   case V_FIND: {
-    auto it = map.find(M::key(p.key));
+    using It = decltype(map.find(M::key(p.key)));
+    It it = obtain_iterator<It>((int)(p.key + p.value), [&] { return map.find(M::key(p.key)); });
     o.r = it != map.end();
     if (o.r) {
       o.r2 = M::pair_id(*it);
@@ -243,7 +263,8 @@ void exec_op(typename M::Map& map, const POp& p, OpRec& o) {
     break;
   }
   case V_FIND_ERASE_IT: {
-    auto it = map.find(M::key(p.key));
+    using It = decltype(map.find(M::key(p.key)));
+    It it = obtain_iterator<It>((int)(p.key + p.value), [&] { return map.find(M::key(p.key)); });
     o.r = it != map.end();
     if (o.r) {
       o.r2 = M::pair_id(*it);
@@ -272,7 +293,8 @@ template <class M>
 void traverse(typename M::Map& map, Traversal& tr, int erase_mask, const Recorder& rec, int tid) {
   tr.start = xrt::stamp();
   int n = 0;
-  auto it = map.begin();
+  using It = decltype(map.begin());
+  It it = obtain_iterator<It>(erase_mask + tid, [&] { return map.begin(); });
   while (it != map.end()) {
     int k = M::key_int((*it).first);
     int64_t v = M::pair_id(*it);
